@@ -230,11 +230,21 @@ def ensure(seed, tier, extra_roots_fn=None):
     if extra_roots_fn:
         extra_roots_fn(U)
     text, tuples, names = TG.render_gen_rs(U["items"], [(r["ty"], r["vals"]) for r in U["roots"]], U.get("extra_rs", ""))
+    from . import abigen
+    U["families"] = abigen.families(U)
+    if tier == "quick":
+        U["families"] = U["families"][:6]
+    abi_text = abigen.render(U, U["families"])
+    ABI_RS = os.path.join(C.HARNESS, "src", "gen_abi", "mod.rs")
     with C.Lock("gen"):
         os.makedirs(os.path.dirname(GEN_RS), exist_ok=True)
+        os.makedirs(os.path.dirname(ABI_RS), exist_ok=True)
         old = open(GEN_RS).read() if os.path.exists(GEN_RS) else None
         if old != text:
             open(GEN_RS, "w").write(text)
+        old = open(ABI_RS).read() if os.path.exists(ABI_RS) else None
+        if old != abi_text:
+            open(ABI_RS, "w").write(abi_text)
         binary, out = C.build_harness()
     if not binary:
         _cache[key] = (None, out)
